@@ -32,6 +32,7 @@ class Server:
         self.idle_reply_open_at = None
         self.custom = None
         self.noidle_inside_idle_reply = False
+        self.known_lines = None
         t.on_write = self.on_write
     def send(self, data):
         self.t.stream.extend(data)
@@ -81,6 +82,8 @@ class Server:
         if self.idle:
             self.violations.append('%r written while the server is idling' % line)
             return
+        if self.known_lines is not None and line not in self.known_lines and not line.startswith((b'password', b'readpicture', b'albumart')):
+            self.violations.append('%r is not a request any caller issued (torn or merged request lines)' % line)
         if undelivered and self.in_list is None and line != b'command_list_end':
             self.violations.append('request %r written before the previous reply was consumed' % line)
         if line.startswith(b'password'):
@@ -98,6 +101,10 @@ class Server:
             self.in_list = None
             ids = []
             for k, c in enumerate(cmds):
+                if c.startswith(b'p'):
+                    self.send(b'file: x\nTitle: y\nACK [50@%d] {%s} failed half-way\n' % (k, c.split()[0]))
+                    self.requests.append(('list', cmds, k))
+                    return
                 if c.startswith(b'f'):
                     self.send(b'ACK [5@%d] {%s} failing\n' % (k, c.split()[0]))
                     self.requests.append(('list', cmds, k))
@@ -115,7 +122,9 @@ class Server:
                 self.send(r)
                 self.requests.append(('cmd', [line], None))
                 return
-        if line.startswith(b'f'):
+        if line.startswith(b'p'):
+            self.send(b'file: x\nTitle: y\nACK [50@0] {%s} failed half-way\n' % line.split()[0])
+        elif line.startswith(b'f'):
             self.send(b'ACK [5@0] {%s} failing\n' % line.split()[0])
         else:
             self.send(b'id: ' + line + b'\nOK\n')
@@ -140,6 +149,12 @@ class Session:
         self.deliver_mode = deliver
         self.loop = None; self.loop_done = False; self.loop_dirty = True
         self.callers = [Caller(i, s) for i, s in enumerate(callers)]
+        kl = {b'command_list_ok_begin', b'command_list_end'}
+        for sc in callers:
+            for req in sc:
+                if req[0] == 'cmd': kl.add(req[1])
+                elif req[0] == 'list': kl.update(req[1])
+        self.server.known_lines = kl
         self.events = []; self.events_done = False
         self.client = None; self.ev_rx = None
         self.connect_result = None
@@ -290,7 +305,15 @@ class Session:
     def fault(self, kind):
         t = self.t
         if kind == 'eof':
-            t.stream = t.stream[:t.limit if t.limit is not None else len(t.stream)]
+            lim = t.limit if t.limit is not None else len(t.stream)
+            delivered = list(t.stream[len(GREETING):lim])
+            # the stream is cut inside a reply iff the reference decoder says the delivered bytes end inside a response
+            from oracles import line_grammar as G
+            from oracles.mpd_tokenizer import ConcreteDecider
+            _, status, _ = G.decode(ConcreteDecider(), delivered)
+            if status == 'partial':
+                self.flags.add('eof_inside_reply')
+            t.stream = t.stream[:lim]
             t.eof = True
         elif kind == 'read_error':
             t.fail_read_at = t.pos
@@ -346,6 +369,10 @@ class Session:
             acts.append(('change',))
         if budget.get('tick', 0) > 0:
             acts.append(('tick',))
+        if budget.get('slowwrite', 0) > 0 and self.t.write_budget is None:
+            acts.append(('slowwrite',))
+        if self.t.write_budget is not None and self.t.write_budget == 0:
+            acts.append(('unblock',))
         for f in budget.get('faults', []):
             acts.append(('fault', f))
         if budget.get('dropclient', 0) > 0 and self.clients:
@@ -366,6 +393,11 @@ class Session:
             budget['nchanged'] = budget.get('nchanged', 0) + 1
             budget['change'] -= 1; self.change(n)
         elif k == 'tick': budget['tick'] -= 1; self.tick()
+        elif k == 'slowwrite':
+            budget['slowwrite'] -= 1
+            self.t.write_budget = 1; self.steps.append('slowwrite')
+        elif k == 'unblock':
+            self.t.write_budget = None; self.mark_dirty(); self.steps.append('unblock')
         elif k == 'fault': budget['faults'] = []; self.fault(act[1])
         elif k == 'dropclient':
             budget['dropclient'] -= 1
@@ -385,6 +417,11 @@ class Session:
     def settle(self, rounds=12, tick=True):
         """deterministic run to quiescence: deliver everything, poll everything, let the re-idle timer expire"""
         ticked = 0
+        if self.t.write_budget is not None:
+            # a blocked write stays blocked for one more round of polls (so that a timer can fire while it is blocked)
+            if self.loop is not None and not self.loop_done and self.loop_dirty:
+                self.poll_loop()
+            self.t.write_budget = None; self.mark_dirty(); self.steps.append('unblock')
         for r in range(rounds):
             progress = False
             while self.undelivered() > 0:
@@ -470,6 +507,8 @@ def expected_reply(req):
     """what the simulated server answers to request `req`"""
     if req[0] == 'cmd':
         nm = req[1]
+        if nm.startswith(b'p'):
+            return ('ack', 50, 0, nm, [])
         if nm.startswith(b'f'):
             return ('ack', 5, 0, nm, [])
         return ('frame', [(b'id', nm)])
@@ -477,10 +516,14 @@ def expected_reply(req):
         frames = []
         if len(req[1]) == 1:
             nm = req[1][0]
+            if nm.startswith(b'p'):
+                return ('ack', 50, 0, nm, [])
             if nm.startswith(b'f'):
                 return ('ack', 5, 0, nm, [])
             return ('frames', [[(b'id', nm)]])
         for k, nm in enumerate(req[1]):
+            if nm.startswith(b'p'):
+                return ('ack', 50, k, nm, frames)
             if nm.startswith(b'f'):
                 return ('ack', 5, k, nm, frames)
             frames.append([(b'id', nm)])
